@@ -83,13 +83,14 @@ SPECIAL = {
     # (large neighbouring integers: equal-looking as floats only to a tolerance-based comparison)
     'systemCompare': lambda rnd: rnd.choice([[1000, 1000], [1000, 999], [[1000, 2], [1000, 2]], [{'a': 300}, {'a': 300}], [10 ** 9, 10 ** 9 + 1],
                                              [2 ** 40 + 1, 2 ** 40], [[10 ** 9 + 1], [10 ** 9]], [10 ** 15 - 1, 10 ** 15]]),
-    'arraySort': lambda rnd: [rnd.sample([10 ** 9 + 1, 10 ** 9, 10 ** 9 + 2, 7, 2 ** 40, 2 ** 40 + 1], rnd.randint(2, 5))],
+    'arraySort': lambda rnd: [rnd.sample([10 ** 9 + 1, 10 ** 9, 10 ** 9 + 2, 7, 2 ** 40, 2 ** 40 + 1], rnd.randint(2, 5))] if rnd.random() < 0.5
+    else [rnd.sample([5, 3, 9, 1, 7, 2], rnd.randint(2, 6)), rnd.choice(['script:sub', 'script:rsub'])],
     'arrayIndexOf': lambda rnd: rnd.choice([[[1000, 300, 1000, 7], rnd.choice([1000, 300, 7, 8]), rnd.choice([0, 1, 2])],
                                             [[10 ** 9 + 1, 10 ** 9, 7], 10 ** 9, 0], [[2 ** 40, 2 ** 40 + 1], 2 ** 40 + 1]]),
     'arrayLastIndexOf': lambda rnd: [[1000, 300, 1000, 7], rnd.choice([1000, 300, 7, 8])],
     # digit counts around the point where 10 ** digits leaves the exactly representable integers (2 ** 53 ~ 9e15, 1e22) and the doubles
-    'mathRound': lambda rnd: [rnd.choice([2.5, 1.005, 12345.678, 0, -0.5, 1e21]), rnd.choice([0, 1, 2, 15, 16, 22, 23, 24, 30, 100, 308, 309])],
-    'numberToFixed': lambda rnd: [rnd.choice([2.5, 1.005, 12345.678, 0, -0.5]), rnd.choice([0, 1, 2, 15, 16, 22, 23, 24, 30, 100]), rnd.choice([True, False])],
+    'mathRound': lambda rnd: [rnd.choice([2.5, 1.005, 12345.678, 0, -0.5, 1e21, 7, 100, -3]), rnd.choice([0, 1, 2, 15, 16, 22, 23, 24, 30, 100, 308, 309])],
+    'numberToFixed': lambda rnd: [rnd.choice([2.5, 1.005, 12345.678, 0, -0.5, 7, 100, -3, 1000000]), rnd.choice([0, 1, 2, 15, 16, 22, 23, 24, 30, 100]), rnd.choice([True, False])],
     'arraySlice': lambda rnd: rnd.choice([[[1, 2, 3, 4], rnd.choice([0, 1, 2, 3, 4])], [[1, 2, 3, 4], rnd.choice([0, 1, 2]), rnd.choice([2, 3, 4, None])]]),
     'objectGet': lambda rnd: [{'a': 1000, 'b': 2}, rnd.choice(['a', 'b', 'c']), 1000],
     'mathMax': lambda rnd: [rnd.choice([1000, 300, 2, 10 ** 9, 10 ** 9 + 1]) for _ in range(rnd.randint(1, 4))],
@@ -166,10 +167,18 @@ def call_once(fname, args):
     from bare_script import execute_script, BareScriptRuntimeError
     from bare_script.library import SCRIPT_FUNCTIONS
     g = {}
+    pre = []
     for i, a in enumerate(args):
+        if isinstance(a, str) and a.startswith('script:'):
+            # a SCRIPT function as the argument (its results are whatever number spelling its arithmetic produces)
+            body = {'sub': {'binary': {'op': '-', 'left': {'variable': 'pa'}, 'right': {'variable': 'pb'}}},
+                    'rsub': {'binary': {'op': '-', 'left': {'variable': 'pb'}, 'right': {'variable': 'pa'}}},
+                    'gt2': {'binary': {'op': '>', 'left': {'variable': 'pa'}, 'right': {'number': 2}}}}[a[7:]]
+            pre.append({'function': {'name': f'x{i}', 'args': ['pa', 'pb'], 'statements': [{'return': {'expr': body}}]}})
+            continue
         g[f'x{i}'] = SCRIPT_FUNCTIONS[a[4:]] if isinstance(a, str) and a.startswith('lib:') else a
-    model = {'statements': [{'return': {'expr': {'function': {'name': fname, 'args': [{'variable': f'x{i}'} for i in range(len(args))]}}}}]}
-    before = [A.aval(g[f'x{i}']) for i in range(len(args))]
+    model = {'statements': pre + [{'return': {'expr': {'function': {'name': fname, 'args': [{'variable': f'x{i}'} for i in range(len(args))]}}}}]}
+    before = [A.aval(g.get(f'x{i}')) for i in range(len(args))]
     status, res = 'done', None
     try:
         res = execute_script(model, {'globals': g, 'maxStatements': 1000})
